@@ -11,6 +11,7 @@ package memberlist
 import (
 	"fmt"
 	"net"
+	"strings"
 	"sync"
 	"sync/atomic"
 	"testing"
@@ -25,6 +26,8 @@ type vpTr struct {
 	onSend  func(to string, mt messageType, body []byte)
 	dial    func(a Address, d time.Duration) (net.Conn, error)
 	sendErr func(to string, mt messageType) error
+	// tap sees every message the node hands to the transport (before the scripted send errors)
+	tap func(to string, mt messageType, body []byte)
 }
 
 func (t *vpTr) FinalAdvertiseAddr(string, int) (net.IP, int, error) {
@@ -47,6 +50,12 @@ func (t *vpTr) handle(to string, buf []byte) error {
 			}
 		}
 		return first
+	}
+	t.mu.Lock()
+	tap := t.tap
+	t.mu.Unlock()
+	if tap != nil {
+		tap(to, mt, buf[1:])
 	}
 	if t.sendErr != nil {
 		if err := t.sendErr(to, mt); err != nil {
@@ -84,6 +93,56 @@ func (t *vpTr) inject(from string, mt messageType, v any, after time.Duration) {
 }
 
 func vpUs(d time.Duration) int64 { return int64(d / time.Microsecond) }
+
+// set by the two checks below when the node under test is stuck for good: the goroutines that are blocked inside it
+// stay behind when the bubble ends, which the bubble reports as a deadlock; TestVfProbe lets that pass for a case that
+// has already recorded the finding (codes 410 / 411) and for no other
+var vpWedged bool
+
+var vpLiveSeq uint32 = 4000000000
+
+// C13 (no sequence of packets blocks a listener forever): after the packets of the case, is the packet listener still
+// taking packets? One more ping is put on the packet channel; a live listener answers it with an ack carrying the
+// ping's number in the same virtual instant. The limit is virtual time; a listener that is blocked inside a handler
+// is reported, never waited for.
+func vpListenerAlive(m *Memberlist, tr *vpTr, limit time.Duration) bool {
+	vpLiveSeq++
+	seq := vpLiveSeq
+	var got atomic.Bool
+	tr.mu.Lock()
+	tr.tap = func(to string, mt messageType, body []byte) {
+		if mt == ackRespMsg && to == "10.0.0.99:7946" {
+			var a ackResp
+			if decode(body, &a) == nil && a.SeqNo == seq {
+				got.Store(true)
+			}
+		}
+	}
+	tr.mu.Unlock()
+	tr.inject("10.0.0.99:7946", pingMsg, &ping{SeqNo: seq, Node: m.config.Name, SourceAddr: []byte{10, 0, 0, 99}, SourcePort: 7946, SourceNode: "chk"}, 0)
+	time.Sleep(limit)
+	synctest.Wait()
+	tr.mu.Lock()
+	tr.tap = nil
+	tr.mu.Unlock()
+	if !got.Load() {
+		vpWedged = true
+	}
+	return got.Load()
+}
+
+// Shutdown from a goroutine of its own, with a (virtual) limit: a node whose Shutdown never returns is reported
+func vpShutdown(m *Memberlist) bool {
+	done := make(chan struct{})
+	go func() { m.Shutdown(); close(done) }()
+	select {
+	case <-done:
+		return true
+	case <-time.After(10 * time.Second):
+		vpWedged = true
+		return false
+	}
+}
 
 func vpProbeCase(r *vfRng, st *vfStats) vfCase {
 	tr := &vpTr{pk: make(chan *Packet, 256), st: make(chan net.Conn)}
@@ -291,13 +350,348 @@ func vpProbeCase(r *vfRng, st *vfStats) vfCase {
 	if sendMode == 2 {
 		ab = 1
 	}
-	c.Obs = [][]int64{{vwBool(suspected), int64(m.GetHealthScore()), int64(nh), ab, vpUs(probeDur)}}
+	scoreEnd := m.GetHealthScore()
+	live := vpListenerAlive(m, tr, time.Second)
 	_ = tcpUsed
-	m.Shutdown()
+	shut := vpShutdown(m)
+	c.Obs = [][]int64{{vwBool(suspected), int64(scoreEnd), int64(nh), ab, vpUs(probeDur), vwBool(live), vwBool(shut)}}
 	st.Ops++
 	st.OpHist["probe"]++
 	st.ObsHist[fmt.Sprintf("suspected_%v", suspected)]++
-	st.class(fmt.Sprintf("1|%v|%d|%d|%d|%d|%v|%d", suspected, m.GetHealthScore()-score0, sendMode, expectedNacks, len(arrivals), tcpEnabled, tcpMode))
+	st.ObsHist[fmt.Sprintf("listener_alive_%v", live)]++
+	st.class(fmt.Sprintf("1|%v|%d|%d|%d|%d|%v|%d", suspected, scoreEnd-score0, sendMode, expectedNacks, len(arrivals), tcpEnabled, tcpMode))
+	return c
+}
+
+// ---- several consecutive probes on ONE node ----
+// What a probe leaves behind must not leak into the next one: nacks and acks that answered an earlier probe (their
+// numbers have expired), late arrivals of the previous probe landing in the middle of the next, a guessed "next"
+// number arriving before that number is in use. Each probe of the chain is checked against the Probe model with the
+// health score chained from the previous probe's observed score.
+
+type vpRel struct {
+	ack, nack, foreign bool
+	at                 time.Duration
+}
+
+// the script of one probe
+type vpRound struct {
+	sendMode                      int // 0 sent, 1 remote-failure send error, 2 other send error
+	directAck, dupAck, foreignAck bool
+	nextAck                       bool // an ack carrying the number the NEXT probe will use
+	directAt, foreignAt, nextAt   time.Duration
+	script                        map[string]vpRel
+	dupNacks                      int // copies of every nack that the network adds
+	tcpMode                       int // as in vpProbeCase
+	tcpAt                         time.Duration
+}
+
+// what the scripted network saw and scheduled, all instants measured from the start of the case
+type vpRec struct {
+	mu            sync.Mutex
+	arrivals      [][]int64
+	seq           uint32
+	expectedNacks int
+	tcpStart      time.Duration
+	first         bool
+}
+
+// profile: 0 anything; 1 nobody acknowledges, every relay's nack arrives in time; 2 nobody acknowledges, the relays
+// are silent or their nacks come after the deadline; 3 nobody acknowledges, early nacks multiplied by the network
+func vpGenRound(r *vfRng, profile int, peers []string, I, P time.Duration) *vpRound {
+	odd := func() time.Duration { return time.Duration(1+2*r.n(400)) * time.Microsecond }
+	grid := func() time.Duration { return time.Duration(1+r.n(int(2*I/time.Millisecond)))*time.Millisecond + odd() }
+	rd := &vpRound{script: map[string]vpRel{}}
+	rd.tcpAt = grid()
+	rd.foreignAck, rd.foreignAt = r.chance(40), grid()
+	rd.nextAck, rd.nextAt = r.chance(15), grid()
+	if profile == 0 {
+		rd.sendMode = r.pick([]int{0, 0, 0, 0, 0, 1, 2})
+		rd.directAck, rd.directAt = r.chance(35), grid()
+		rd.dupAck = r.chance(15)
+		for _, a := range peers {
+			switch r.n(4) {
+			case 0:
+				rd.script[a] = vpRel{ack: true, at: grid()}
+			case 1:
+				rd.script[a] = vpRel{nack: true, at: grid()}
+			case 2:
+				rd.script[a] = vpRel{foreign: true, at: grid()}
+			default:
+				rd.script[a] = vpRel{}
+			}
+		}
+		if r.chance(25) {
+			rd.dupNacks = 2
+		}
+		rd.tcpMode = r.n(4)
+		return rd
+	}
+	rd.sendMode = r.pick([]int{0, 0, 0, 1})
+	rd.tcpMode = r.pick([]int{0, 0, 2, 3})
+	room := int((I - P) / time.Millisecond)
+	for _, a := range peers {
+		switch profile {
+		case 1:
+			rd.script[a] = vpRel{nack: true, at: time.Duration(1+r.n(room-10))*time.Millisecond + odd()}
+		case 2:
+			if r.chance(50) {
+				rd.script[a] = vpRel{nack: true, at: I + time.Duration(1+r.n(500))*time.Millisecond + odd()}
+			} else {
+				rd.script[a] = vpRel{foreign: r.chance(30), at: grid()}
+			}
+		default:
+			rd.script[a] = vpRel{nack: true, at: time.Duration(1+r.n(int(P/time.Millisecond)))*time.Millisecond + odd()}
+		}
+	}
+	switch profile {
+	case 1:
+		if r.chance(30) {
+			rd.dupNacks = 1 + r.n(2)
+		}
+	case 3:
+		rd.dupNacks = 2 + r.n(5)
+	}
+	return rd
+}
+
+func (rd *vpRound) install(tr *vpTr, caseT0 time.Time, rec *vpRec) {
+	rec.mu.Lock()
+	rec.seq, rec.expectedNacks, rec.tcpStart, rec.first = 0, 0, 0, true
+	rec.mu.Unlock()
+	note := func(kind int64, seq uint32, at time.Duration) {
+		rec.arrivals = append(rec.arrivals, []int64{kind, int64(seq), vpUs(at)})
+	}
+	tr.sendErr = func(to string, mt messageType) error {
+		rec.mu.Lock()
+		defer rec.mu.Unlock()
+		if mt == pingMsg && rec.first {
+			rec.first = false
+			switch rd.sendMode {
+			case 1:
+				return &net.OpError{Op: "write", Net: "udp", Err: fmt.Errorf("connection refused")}
+			case 2:
+				return fmt.Errorf("no route to host")
+			}
+		}
+		return nil
+	}
+	tr.onSend = func(to string, mt messageType, body []byte) {
+		rec.mu.Lock()
+		defer rec.mu.Unlock()
+		el := time.Since(caseT0)
+		switch mt {
+		case pingMsg:
+			var p ping
+			decode(body, &p)
+			rec.seq = p.SeqNo
+			if rd.directAck {
+				tr.inject(to, ackRespMsg, &ackResp{SeqNo: p.SeqNo}, rd.directAt)
+				note(0, p.SeqNo, el+rd.directAt)
+				if rd.dupAck {
+					tr.inject(to, ackRespMsg, &ackResp{SeqNo: p.SeqNo}, rd.directAt+3*time.Millisecond)
+					note(0, p.SeqNo, el+rd.directAt+3*time.Millisecond)
+				}
+			}
+			if rd.foreignAck {
+				tr.inject(to, ackRespMsg, &ackResp{SeqNo: p.SeqNo + 1000}, rd.foreignAt)
+				note(0, p.SeqNo+1000, el+rd.foreignAt)
+				tr.inject(to, nackRespMsg, &nackResp{SeqNo: p.SeqNo + 1000}, rd.foreignAt+time.Millisecond)
+				note(1, p.SeqNo+1000, el+rd.foreignAt+time.Millisecond)
+			}
+			if rd.nextAck {
+				tr.inject(to, ackRespMsg, &ackResp{SeqNo: p.SeqNo + 1}, rd.nextAt)
+				note(0, p.SeqNo+1, el+rd.nextAt)
+			}
+		case indirectPingMsg:
+			var ind indirectPingReq
+			decode(body, &ind)
+			if rec.seq == 0 {
+				rec.seq = ind.SeqNo
+			}
+			if ind.Nack {
+				rec.expectedNacks++
+			}
+			sc := rd.script[to]
+			if sc.ack {
+				tr.inject(to, ackRespMsg, &ackResp{SeqNo: ind.SeqNo}, sc.at)
+				note(0, ind.SeqNo, el+sc.at)
+			}
+			if sc.nack {
+				for k := 0; k <= rd.dupNacks; k++ {
+					at := sc.at
+					if k > 0 {
+						at += time.Duration(k)*time.Millisecond + 2*time.Microsecond
+					}
+					tr.inject(to, nackRespMsg, &nackResp{SeqNo: ind.SeqNo}, at)
+					note(1, ind.SeqNo, el+at)
+				}
+			}
+			if sc.foreign {
+				tr.inject(to, ackRespMsg, &ackResp{SeqNo: ind.SeqNo + 5}, sc.at)
+				note(0, ind.SeqNo+5, el+sc.at)
+			}
+		}
+	}
+	tr.dial = func(a Address, d time.Duration) (net.Conn, error) {
+		rec.mu.Lock()
+		rec.tcpStart = time.Since(caseT0)
+		rec.mu.Unlock()
+		if rd.tcpMode == 0 {
+			return nil, fmt.Errorf("refused")
+		}
+		if rd.tcpMode == 3 {
+			time.Sleep(d)
+			return nil, fmt.Errorf("i/o timeout")
+		}
+		c1, c2 := net.Pipe()
+		go func() {
+			defer c2.Close()
+			buf := make([]byte, 512)
+			n, err := c2.Read(buf)
+			if err != nil || n < 1 {
+				return
+			}
+			var p ping
+			decode(buf[1:n], &p)
+			time.Sleep(rd.tcpAt)
+			s := p.SeqNo
+			if rd.tcpMode == 2 {
+				s += 7
+			}
+			out, _ := encode(ackRespMsg, &ackResp{SeqNo: s}, false)
+			c2.Write(out.Bytes())
+		}()
+		return c1, nil
+	}
+}
+
+func vpChainCase(r *vfRng, st *vfStats) vfCase {
+	tr := &vpTr{pk: make(chan *Packet, 1024), st: make(chan net.Conn)}
+	cfg := DefaultLANConfig()
+	cfg.Name = "self"
+	cfg.Transport = tr
+	cfg.Logger = vwDiscard
+	cfg.ProbeInterval = time.Second
+	cfg.ProbeTimeout = 300 * time.Millisecond
+	cfg.IndirectChecks = 1 + r.n(3)
+	cfg.DisableTcpPings = r.chance(50)
+	cfg.EnableCompression = false
+	cfg.AwarenessMaxMultiplier = r.pick([]int{4, 8, 2})
+	m, err := newMemberlist(cfg)
+	if err != nil {
+		panic(err)
+	}
+	m.setAlive()
+	score0 := r.n(cfg.AwarenessMaxMultiplier)
+	m.awareness.ApplyDelta(score0)
+	tgtPMax := uint8(2 + r.n(3))
+	tgtVsn := []uint8{1, tgtPMax, 2, 0, 0, 0}
+	m.aliveNode(&alive{Incarnation: 1, Node: "tgt", Addr: []byte{10, 0, 0, 1}, Port: 7946, Vsn: tgtVsn}, nil, false)
+	npeers := 1 + r.n(3)
+	var peers []string
+	for i := 0; i < npeers; i++ {
+		pm := uint8(4)
+		if r.chance(25) {
+			pm = 3
+		}
+		m.aliveNode(&alive{Incarnation: 1, Node: fmt.Sprintf("p%d", i), Addr: []byte{10, 0, 0, byte(10 + i)}, Port: 7946, Vsn: []uint8{1, pm, 2, 0, 0, 0}}, nil, false)
+		peers = append(peers, fmt.Sprintf("10.0.0.%d:7946", 10+i))
+	}
+	m.broadcasts.Reset()
+	P := cfg.ProbeTimeout
+	tcpEnabled := !cfg.DisableTcpPings && tgtPMax >= 3
+	nprobes := 2 + r.n(2)
+	rec := &vpRec{}
+	caseT0 := time.Now()
+	var rows [][]int64
+	cls := ""
+	for j := 0; j < nprobes; j++ {
+		scoreIn := m.GetHealthScore()
+		I := time.Duration(scoreIn+1) * cfg.ProbeInterval
+		var profile int
+		if j == 0 {
+			profile = r.pick([]int{1, 1, 1, 1, 3, 3, 0, 0, 2, 2})
+		} else {
+			profile = r.pick([]int{2, 2, 2, 2, 0, 0, 1, 1, 3, 2})
+		}
+		rd := vpGenRound(r, profile, peers, I, P)
+		rd.install(tr, caseT0, rec)
+		m.nodeLock.RLock()
+		tn := *m.nodeMap["tgt"]
+		m.nodeLock.RUnlock()
+		aliveAtEntry := tn.State == StateAlive
+		start := time.Since(caseT0)
+		done := make(chan struct{})
+		go func() { m.probeNode(&tn); close(done) }()
+		<-done
+		now := time.Since(caseT0)
+		dur := now - start
+		// observe once the probe's record is due (start + I), at a whole millisecond: arrivals carry odd
+		// microsecond offsets, so nothing ever coincides with a deadline of this probe or of the next
+		at := now
+		if start+I > at {
+			at = start + I
+		}
+		at += time.Duration(1+r.n(40)) * time.Millisecond
+		if r.chance(25) {
+			at += 3 * I
+		}
+		at = (at + time.Millisecond - 1) / time.Millisecond * time.Millisecond
+		time.Sleep(at - now)
+		synctest.Wait()
+		m.nodeLock.RLock()
+		ns := m.nodeMap["tgt"]
+		suspected := ns.State != StateAlive
+		inc := ns.Incarnation
+		m.nodeLock.RUnlock()
+		m.ackLock.Lock()
+		nh := len(m.ackHandlers)
+		m.ackLock.Unlock()
+		score := m.GetHealthScore()
+		live := vpListenerAlive(m, tr, time.Millisecond)
+		rec.mu.Lock()
+		tm, ab := int64(0), int64(0)
+		if rd.tcpMode == 1 {
+			tm = 1
+		}
+		if rd.sendMode == 2 {
+			ab = 1
+		}
+		tcpRel := rec.tcpStart - start + rd.tcpAt
+		if tcpRel < 0 {
+			tcpRel = 0
+		}
+		rows = append(rows, []int64{vwBool(suspected), int64(score), int64(nh), ab, vpUs(dur), vpUs(start), int64(rd.sendMode), int64(rec.expectedNacks),
+			vwBool(tcpEnabled), tm, vpUs(tcpRel), int64(rec.seq), vwBool(aliveAtEntry), vwBool(live)})
+		cls += fmt.Sprintf("|%d,%v,%d,%d,%v", profile, suspected, score-scoreIn, rec.expectedNacks, aliveAtEntry)
+		rec.mu.Unlock()
+		st.Ops++
+		st.OpHist["chained probe"]++
+		st.ObsHist[fmt.Sprintf("suspected_%v", suspected)]++
+		st.ObsHist[fmt.Sprintf("listener_alive_%v", live)]++
+		if !live {
+			break
+		}
+		// mostly the target refutes the suspicion before it is probed again (the verdict of the next probe is then
+		// visible in its state); otherwise it is probed while suspect (ping and suspect message in one packet)
+		if suspected && j+1 < nprobes && r.chance(75) {
+			m.aliveNode(&alive{Incarnation: inc + 1, Node: "tgt", Addr: []byte{10, 0, 0, 1}, Port: 7946, Vsn: tgtVsn}, nil, false)
+		}
+	}
+	// let everything that is still scheduled arrive
+	time.Sleep(20 * time.Second)
+	synctest.Wait()
+	shut := vpShutdown(m)
+	c := vfCase{Cfg: []int64{3, int64(cfg.AwarenessMaxMultiplier), vpUs(cfg.ProbeInterval), vpUs(P), int64(score0), vwBool(shut)}}
+	rec.mu.Lock()
+	c.Ops = rec.arrivals
+	rec.mu.Unlock()
+	if c.Ops == nil {
+		c.Ops = [][]int64{}
+	}
+	c.Obs = rows
+	st.class("3" + cls)
 	return c
 }
 
@@ -418,10 +812,12 @@ func vpRelayCase(r *vfRng, st *vfStats) vfCase {
 	if c.Ops == nil {
 		c.Ops = [][]int64{}
 	}
+	live := vpListenerAlive(m, tr, time.Second)
+	shut := vpShutdown(m)
 	mu.Lock()
-	c.Obs = [][]int64{{int64(acks), int64(nacks), int64(acksOK), vwBool(localSeq != reqSeq), int64(nh), vwBool(handlerPanicked.Load())}}
+	c.Obs = [][]int64{{int64(acks), int64(nacks), int64(acksOK), vwBool(localSeq != reqSeq), int64(nh), vwBool(handlerPanicked.Load()), vwBool(live), vwBool(shut)}}
 	mu.Unlock()
-	m.Shutdown()
+	st.ObsHist[fmt.Sprintf("listener_alive_%v", live)]++
 	st.Ops++
 	st.OpHist["relay"]++
 	st.class(fmt.Sprintf("2|%d|%d|%v|%d", acks, nacks, wantNack, mode))
@@ -430,19 +826,42 @@ func vpRelayCase(r *vfRng, st *vfStats) vfCase {
 
 func TestVfProbe(t *testing.T) {
 	st := vfNewStats("probe")
-	st.Rule = "probeNode against scripted arrivals: direct / indirect acks (own number, foreign numbers, duplicates), nacks, all before or after the timeout and the deadline (odd microsecond offsets, no ties), failed sends (remote / other), TCP fallback refusing / answering / answering with another number, IndirectChecks 0..3, peers speaking protocol 3 or 4, score 0..max-1, targets alive or already suspect; handleIndirectPing with silent / acking / double-acking / foreign / late targets; distinct = distinct (suspected, score delta, send mode, expected nacks, #arrivals, tcp) tuples"
+	st.Rule = "probeNode against scripted arrivals: direct / indirect acks (own number, foreign numbers, duplicates), nacks, all before or after the timeout and the deadline (odd microsecond offsets, no ties), failed sends (remote / other), TCP fallback refusing / answering / answering with another number, IndirectChecks 0..3, peers speaking protocol 3 or 4, score 0..max-1, targets alive or already suspect; chains of 2-3 consecutive probes on one node (nacks answered / missed / multiplied per probe, late arrivals of one probe landing in the next, an ack carrying the next number, the target refuting in between or probed while suspect), each probe checked with the score chained from the previous one; after every case one more ping must be answered by the packet listener (C13) and Shutdown must return; handleIndirectPing with silent / acking / double-acking / foreign / late targets; distinct = distinct (suspected, score delta, send mode, expected nacks, #arrivals, tcp) tuples"
 	var cases []vfCase
 	r := &vfRng{s: vfSeed()*15487469 + 70}
 	n := vfEnvInt("VF_N", 800)
-	for i := 0; i < n; i++ {
+	// a case that found the node stuck for good (a listener blocked inside a handler: 410, Shutdown not returning: 411)
+	// leaves blocked goroutines behind, which the bubble reports as a deadlock when it ends: that report is the finding
+	// the case has already recorded, not a reason to lose the run. Any other deadlock is passed on.
+	bubble := func(f func()) {
+		vpWedged = false
+		recorded := false
+		defer func() {
+			if p := recover(); p != nil {
+				if e, ok := p.(error); ok && recorded && vpWedged && strings.HasPrefix(e.Error(), "deadlock:") {
+					st.ObsHist["bubble left with goroutines blocked inside the node"]++
+					return
+				}
+				panic(p)
+			}
+		}()
 		synctest.Test(t, func(t *testing.T) {
+			f()
+			recorded = true
+			time.Sleep(time.Hour)
+		})
+	}
+	for i := 0; i < n; i++ {
+		bubble(func() {
 			if i%4 == 3 {
 				cases = append(cases, vpRelayCase(r, st))
 			} else {
 				cases = append(cases, vpProbeCase(r, st))
 			}
-			time.Sleep(time.Hour)
 		})
+		if i%5 == 0 {
+			bubble(func() { cases = append(cases, vpChainCase(r, st)) })
+		}
 	}
 	if err := vfEmit(st, cases, "From VF Require Import Raw ProbeCheck.", "ProbeCheck.check_any", true); err != nil {
 		t.Fatal(err)
